@@ -109,6 +109,16 @@ def pyRMapM {α β : Type} (f : α → Except Err β) : List α → Except Err (
   | [] => .ok []
   | a :: r => f a >>= fun b => pyRMapM f r >>= fun l => .ok (b :: l)
 
+/-- `l.insert(n, a)` on a list, `n` a natural number: `l[n:n] = [a]` — `a` goes before index `n`, at the end when
+`n ≥ len(l)` -/
+def pyRListInsert {α : Type} (l : List α) (n : Nat) (a : α) : List α := l.take n ++ a :: l.drop n
+
+/-- `next(g, dflt)` for a generator `g` whose (pure) elements are the list `l`: the first one, `dflt` when there is none -/
+def pyRNextD {α : Type} (l : List α) (dflt : α) : α :=
+  match l with
+  | [] => dflt
+  | a :: _ => a
+
 /-! ## `PCBO.is_solution_valid` -/
 
 /-- the key under which `PCBO._constraints` files a constraint of each relation -/
